@@ -26,6 +26,8 @@ def out_class(s):
         return "go_fatal"
     if s.startswith("timeout"):
         return "timeout"
+    if s.startswith("uncaught"):
+        return "uncaught"
     if s.startswith("err"):
         return "err" + s.split()[1] if len(s.split()) > 1 else "err"
     if s.startswith("ok"):
@@ -110,6 +112,10 @@ def relax(inp, obs, want):
     return obs, n
 
 
+MAX_ALONE = 12      # at most this many no-verdict cases per stream are re-run alone
+ALONE_TRIES = 2     # re-runs (alone) of a case that timed out / lost its output
+
+
 def hist_stream(ctx, name, h, m, n, variant, corpus):
     args = ["-extra", variant]
     cmd = [h, "-seed", str(ctx.sseed(name)), "-n", str(n), "-tier", ctx.tier] + args
@@ -125,6 +131,30 @@ def hist_stream(ctx, name, h, m, n, variant, corpus):
     rc3, sexp, sout = vlib.run_model(m, ids, inputs, args=["spec"])
     if rc2 != 0 or rc3 != 0:
         ctx.broke("correspondence %s: model driver exited %d/%d" % (name, rc2, rc3), (mout + sout)[-3000:])
+    # A history in which an item was answered "timeout" (the harness's CPU-time watchdog) has no
+    # verdict yet: it is re-run ALONE, in a fresh process with much larger limits, up to 2 times.
+    # Only a history that times out in isolation too is reported (key hang:...); its partial
+    # output is never compared item by item.
+    hangs = {}
+    rerun = 0
+    for i in [j for j in ids if "timeout" in obs[j]]:
+        confirmed = len([1 for v in hangs.values() if v is not None])
+        if rerun >= MAX_ALONE or confirmed >= 3:
+            hangs[i] = None       # no verdict, not classified (counted in the evidence)
+            continue
+        rerun += 1
+        got = None
+        for _ in range(ALONE_TRIES if confirmed < 2 else 1):
+            rc4, out4 = vlib.sh([h, "-n", "0", "-input", "/dev/stdin"] + args, inp="k0\t%s\n" % inputs[i], timeout=1500,
+                                env=vlib.elk_env({"C24_GUARD_CPU_MS": "60000", "C24_GUARD_WALL_MS": "600000"}))
+            ids4, _, obs4 = vlib.parse_case_lines(out4)
+            if rc4 == 0 and ids4 and "timeout" not in obs4[ids4[0]]:
+                got = obs4[ids4[0]]
+                break
+        if got is not None:
+            obs[i] = got
+        else:
+            hangs[i] = obs[i]
     items = 0
     dist = {}
     distinct = set()
@@ -142,6 +172,15 @@ def hist_stream(ctx, name, h, m, n, variant, corpus):
         e = exp.get(i)
         if e is None:
             ctx.broke("correspondence %s: model gave no answer for case %s" % (name, i))
+            continue
+        if i in hangs:
+            if hangs[i] is not None:
+                k0 = max(0, len(hangs[i].split("|")) - 1)
+                t = its[min(k0, len(its) - 1)].split()
+                ctx.fail("hang:%s:%s" % (t[0], arg_class(t[-1])), "history item %r does not return (60 s of CPU time, run alone, %d times)" % (" ".join(t), ALONE_TRIES),
+                         stream=name, case=";".join(its[:k0 + 1]), impl="timeout", model=e.split("|")[min(k0, len(e.split("|")) - 1)][:300],
+                         oracle="every sequence operation terminates")
+            items -= len(its)
             continue
         obs[i], nt = relax(inputs[i], obs[i], e)
         tol += nt
@@ -163,8 +202,8 @@ def hist_stream(ctx, name, h, m, n, variant, corpus):
         # property evaluated directly on the implementation's own output
         if "CAP<LEN" in obs[i]:
             ctx.fail("capacity-below-length", "capacity < length observed", stream=name, case=inputs[i], impl=obs[i][:300], oracle="capacity >= length")
-        if re.search(r"\bpanic\b|\bfatal\b|timeout", obs[i]):
-            d = [(t, o) for t, o in zip(its, obs[i].split("|")) if re.match(r"panic|fatal|timeout", o)]
+        if re.search(r"\bpanic\b|\bfatal\b", obs[i]):
+            d = [(t, o) for t, o in zip(its, obs[i].split("|")) if re.match(r"panic|fatal", o)]
             if d and e == obs[i]:
                 # model and implementation agree on a Go panic: the property oracle still fails
                 t, o = d[0]
@@ -178,7 +217,9 @@ def hist_stream(ctx, name, h, m, n, variant, corpus):
                "operation and 0-2 random queries (len, [], slice by all 8 range kinds, ==, contains, iteration); evaluations = history "
                "items executed; non-trivial = distinct histories with more than 3 items; variant=" + variant,
                [{"input": inputs[i][:300], "observed": obs[i][:300]} for i in ids[:2] + ids[-1:]], dist,
-               histories=len(ids), mismatches=mism, minimised=shrunk, tolerated_empty_selection_errors=tol)
+               histories=len(ids), mismatches=mism, minimised=shrunk, tolerated_empty_selection_errors=tol,
+               histories_rerun_alone_after_timeout=rerun, histories_hanging_alone=len([1 for v in hangs.values() if v is not None]),
+               histories_without_verdict_not_classified=len([1 for v in hangs.values() if v is None]))
 
 
 RANGE_FMT = {"cc": "%s...%s", "oc": "%s<..%s", "co": "%s..<%s", "oo": "%s<.<%s",
@@ -245,6 +286,20 @@ def canon_elk(line):
     line = re.sub(r"%\[", "T[", line)
     line = re.sub(r"(?<![TL])\[", "L[", line)
     return line.strip()
+
+
+def logical_lines(out):
+    """`inspect` breaks a long list/tuple over several physical lines ("[", "  4,", ..., "]").
+    Every item prints exactly one logical line: a physical line that starts with white space or
+    with a closing bracket continues the previous one."""
+    res = []
+    for l in out.splitlines():
+        if res and (l[:1] in (" ", "\t", "]") or l == ""):
+            if l.strip():
+                res[-1] += l.strip()
+        else:
+            res.append(l)
+    return [canon_elk(l) for l in res]
 
 
 def gen_history(rng, maxops):
@@ -336,11 +391,73 @@ def gen_history(rng, maxops):
     return ";".join(items)
 
 
+END_MARK = "c24-end-of-program"
+
+
 def elk_program(hist):
     out = ["var r0: ArrayList[Int] = []", "var r1: ArrayList[Int] = []", "var r2: ArrayList[Int] = []", "var acc: ArrayList[Int] = []"]
     for it in hist.split(";"):
         out.append("do\n" + "\n".join("  " + l for l in elk_item(it.split()).split("\n")) + "\n" + CATCH.rstrip("\n"))
+    out.append('println("%s")' % END_MARK)
     return "\n".join(out) + "\n"
+
+
+def has_verdict(r):
+    """an `elk run` has a verdict iff the process ended by itself (any exit status: normal end, an
+    uncaught Elk error, a Go panic/fatal error) or printed the end-of-program sentinel. A run
+    that was killed at the wall-clock limit or by a signal without the sentinel has none."""
+    rcode, out, cls = r
+    if END_MARK in out:
+        return True
+    return rcode != 124 and rcode >= 0 and cls != "timeout" and cls != "signal"
+
+
+def run_with_verdicts(elk, progs, workdir, first_timeout=150, alone_timeout=400):
+    """Run all programs 16-way parallel with a generous limit; every program left without a
+    verdict is then re-run ALONE (nothing else of this check running) up to ALONE_TRIES times
+    with a longer limit. Returns (results, hangs, stats): results only holds programs with a
+    verdict; hangs holds the programs that hit the limit in isolation too; programs beyond
+    MAX_ALONE that never got a verdict are in neither (they are only counted)."""
+    res = vlib.run_programs(elk, progs, workdir, timeout=first_timeout)
+    src = dict(progs)
+    pending = [i for i, _ in progs if not has_verdict(res[i])]
+    hangs = {}
+    stats = {"programs_without_verdict_in_parallel_pass": len(pending), "programs_rerun_alone": 0,
+             "programs_hanging_alone": 0, "programs_without_verdict_not_classified": 0}
+    for n, i in enumerate(pending):
+        if n >= MAX_ALONE:
+            stats["programs_without_verdict_not_classified"] += 1
+            del res[i]
+            continue
+        if stats["programs_hanging_alone"] >= 3:
+            # a hang class is established; do not spend more hours confirming further members
+            stats["programs_without_verdict_not_classified"] += 1
+            del res[i]
+            continue
+        stats["programs_rerun_alone"] += 1
+        r = res[i]
+        for _ in range(ALONE_TRIES if stats["programs_hanging_alone"] < 2 else 1):
+            r = vlib.run_programs(elk, [(i, src[i])], workdir, workers=1, timeout=alone_timeout)[i]
+            if has_verdict(r):
+                break
+        if has_verdict(r):
+            res[i] = r
+        else:
+            hangs[i] = r
+            del res[i]
+            stats["programs_hanging_alone"] += 1
+    return res, hangs, stats
+
+
+def last_started_item(its, out):
+    """index of the item a hanging program was executing: every finished item printed one line"""
+    n = 0
+    for l in logical_lines(out):
+        if re.match(r"(ok|err|[LT]\[)", l):
+            n += 1
+        else:
+            break
+    return min(n, len(its) - 1)
 
 
 PROBES = [
@@ -364,27 +481,52 @@ def elk_stream(ctx, m):
     inputs = dict(zip(ids, hists))
     rc, exp, mout = vlib.run_model(m, ids, inputs)
     rc2, sexp, _ = vlib.run_model(m, ids, inputs, args=["spec"])
-    progs = [(i, elk_program(inputs[i])) for i in ids] + [("p%d" % k, src) for k, (_, src, _) in enumerate(PROBES)]
-    res = vlib.run_programs(elk, progs, os.path.join(ctx.workdir, "elk"), timeout=12)
+    progs = [(i, elk_program(inputs[i])) for i in ids] + [("p%d" % k, src + 'println("%s")\n' % END_MARK) for k, (_, src, _) in enumerate(PROBES)]
+    res, hangs, stats = run_with_verdicts(elk, progs, os.path.join(ctx.workdir, "elk"))
     items = 0
     mism = 0
     tol = 0
     dist = {}
     for i in ids:
-        rcode, out, cls = res[i]
-        lines = [canon_elk(l) for l in out.splitlines()]
         its = inputs[i].split(";")
+        if i in hangs:
+            # no answer even when run alone with a long limit: a genuine hang. The partial output
+            # only tells which item was running; it is not compared.
+            k0 = last_started_item(its, hangs[i][1])
+            t = its[k0].split()
+            ctx.fail("elk:hang:%s:%s" % (t[0], arg_class(t[-1])), "program item %r: `elk run` does not finish (run alone, %d times)" % (" ".join(t), ALONE_TRIES),
+                     stream=name, case=";".join(its[:k0 + 1]), impl="timeout", model="".join(exp.get(i, "").split("|")[k0:k0 + 1])[:300],
+                     oracle="every sequence operation terminates")
+            continue
+        if i not in res:
+            continue                      # never got a verdict and was not classified (counted in stats)
+        rcode, out, cls = res[i]
+        lines = logical_lines(out)
+        complete = END_MARK in lines
+        if complete:
+            lines = lines[:lines.index(END_MARK)]
         items += len(its)
         for t in its:
             dist[t.split()[0]] = dist.get(t.split()[0], 0) + 1
-        if cls in ("go_panic", "go_fatal", "timeout", "signal"):
+        if not complete and cls in ("go_panic", "go_fatal"):
             keep = []
             for l in lines:
                 if re.match(r"(ok|err|[LT]\[)", l):
                     keep.append(l)
                 else:
                     break
-            lines = keep + [{"go_panic": "panic", "go_fatal": "fatal"}.get(cls, "timeout")]
+            lines = keep + [{"go_panic": "panic", "go_fatal": "fatal"}[cls]]
+        elif not complete:
+            # the process ended by itself without reaching the end: an uncaught Elk error (or a
+            # compile error). The output is complete as far as it goes; mark where it stopped.
+            keep = []
+            for l in lines:
+                if re.match(r"(ok|err|[LT]\[)", l):
+                    keep.append(l)
+                else:
+                    break
+            rest = [l for l in lines[len(keep):] if l.strip()]
+            lines = keep + ["uncaught " + (rest[0] if rest else "exit %d" % rcode)]
         obs = "|".join(lines)
         w0 = exp.get(i, "").split("|")
         if lines and lines[-1] == "panic" and len(w0) >= len(lines) and w0[len(lines) - 1].startswith("panic "):
@@ -411,15 +553,29 @@ def elk_stream(ctx, m):
         if re.search(r"panic 104", exp.get(i, "")) and obs == exp.get(i):
             pass
     for k, (key, src, what) in enumerate(PROBES):
+        if "p%d" % k in hangs:
+            ctx.fail("elk:hang:probe:" + key, "probe program does not finish (run alone, %d times)" % ALONE_TRIES, stream=name, case=src, impl="timeout",
+                     oracle="a declared list method never crashes the interpreter")
+            continue
+        if "p%d" % k not in res:
+            continue
         rcode, out, cls = res["p%d" % k]
         if cls in ("go_panic", "go_fatal"):
             ctx.fail(key + ":" + cls, what, stream=name, case=src, impl=out[:200], oracle="a declared list method never crashes the interpreter")
     ctx.stream(name, items, len(set(hists[ncorp:])),
                "seeded histories of 1..25 operations over three ArrayList[Int] variables printed as one Elk program each (every item in "
                "its own do/catch IndexError/OutOfRangeError block), run with `elk run`; output lines compared with the extracted model "
-               "(impl and spec layer); plus %d fixed probe programs; evaluations = items executed; non-trivial = distinct generated histories" % len(PROBES),
-               [{"input": inputs[i][:300], "observed": res[i][1][:200]} for i in ids[:2]], dist,
-               programs=len(progs), mismatches=mism, tolerated_empty_selection_errors=tol)
+               "(impl and spec layer); plus %d fixed probe programs. Every program ends by printing a sentinel; a run that hits the wall-clock "
+               "limit (150 s) or is killed without the sentinel has no verdict, is re-run alone (400 s, up to 2 times) and is reported only "
+               "if it does not finish in isolation either (key elk:hang:...); partial output is never compared. evaluations = items of "
+               "programs with a verdict; non-trivial = distinct generated histories" % len(PROBES),
+               [{"input": inputs[i][:300], "observed": res[i][1][:200]} for i in ids[:2] if i in res], dist,
+               programs=len(progs), mismatches=mism, tolerated_empty_selection_errors=tol, **stats)
+
+
+def cpu_children(resource):
+    r = resource.getrusage(resource.RUSAGE_CHILDREN)
+    return r.ru_utime + r.ru_stime
 
 
 def run(ctx):
@@ -440,9 +596,16 @@ def run(ctx):
     import time
     t = [time.time()]
 
+    import resource
+    c = [cpu_children(resource)]
+
     def lap(what):
         t.append(time.time())
+        c.append(cpu_children(resource))
         ctx.extra.setdefault("phase_seconds", {})[what] = round(t[-1] - t[-2], 1)
+        # CPU time of the child processes of the phase: wall time on an idle machine is about
+        # cpu for the single-process phases and cpu/16 for c24.elk (16 programs in parallel)
+        ctx.extra.setdefault("phase_cpu_seconds", {})[what] = round(c[-1] - c[-2], 1)
     ctx.run_proof_gate()
     lap("proof_gate")
     h = vlib.build_harness("c24")
